@@ -955,6 +955,46 @@ func (e *analysisEngine) charFilters(per int) {
 	}
 }
 
+// foldSweep: the ASCII folding filter on every rune of the Basic Multilingual Plane, alone, after
+// and before an ASCII letter (every case of its switch is reached, at the end of the text and
+// inside it); oracle only, every 4000th call also as an exact case.
+func (e *analysisEngine) foldSweep() {
+	f := char.NewASCIIFoldingFilter()
+	calls, failures := 0, 0
+	fin, _ := cq.Guard(120*time.Second, func() {
+		for r := rune(0x80); r <= 0xFFFF; r++ {
+			if r >= 0xD800 && r <= 0xDFFF {
+				continue
+			}
+			for k, s := range []string{string(r), "a" + string(r), string(r) + "a"} {
+				calls++
+				var out []byte
+				pan := func() (p interface{}) {
+					defer func() { p = recover() }()
+					out = f.Filter([]byte(s))
+					return nil
+				}()
+				if pan != nil {
+					failures++
+					if failures <= 3 {
+						e.w.OracleFail("analysis-panic:charfilter:asciifolding", fmt.Sprintf("panic: %v", pan), map[string]interface{}{"class": "fold-sweep", "input": analysisQ([]byte(s))})
+					}
+					continue
+				}
+				if k == 0 && calls%4000 == 1 {
+					e.w.Add(fmt.Sprintf("CAsciiFold %s %s", analysisBytes([]byte(s)), cq.Some(analysisBytes(out))), "exact:charfilter:asciifolding",
+						!bytes.Equal(out, []byte(s)), map[string]interface{}{"class": "fold-sweep", "input": analysisQ([]byte(s))})
+				}
+			}
+		}
+	})
+	e.w.OracleEval(calls)
+	e.w.Count("fold_sweep_calls", calls)
+	if !fin {
+		e.w.Abort("analysis-hang:charfilter:asciifolding", "fold sweep did not finish within 120s", nil)
+	}
+}
+
 // ---------------------------------------------------------------- token streams to feed filters
 
 // stream makes a token stream the way a pipeline would hand it to a filter: a bundled tokenizer
@@ -1742,6 +1782,7 @@ func runAnalysis(o Opts) error {
 	e.chains(60 * scale)
 	e.tokenizers(10 * scale)
 	e.charFilters(6 * scale)
+	e.foldSweep()
 	e.otherFilters(10 * scale)
 	e.exactFilters(45 * scale)
 	e.freqs(60 * scale)
